@@ -669,7 +669,7 @@ func inputKind(c *caseT) string {
 //     body contains direct eval (all differing references resolve to it);
 //   - block-function-in-class-body: a function declared in a block inside a
 //     class body of a sloppy script (all differing references have its name).
-func causeOf(c *caseT, bad []int) string {
+func causeOf(c *caseT, cf config, bad []int, errText string) string {
 	anc := func(s int) []int {
 		var out []int
 		for s != 0 {
@@ -693,6 +693,7 @@ func causeOf(c *caseT, bad []int) string {
 		}
 	}
 	clsSelf := map[int]bool{} // index into c.Syms (1-based as in c.Res)
+	clsScopes := map[int]bool{}
 	pinNR := false
 	for i, y := range c.Syms {
 		if y.PinNR {
@@ -700,6 +701,40 @@ func causeOf(c *caseT, bad []int) string {
 		}
 		if y.Lvl == "s" && y.Pinned && c.Scopes[y.S-1].Kind == "cls" {
 			clsSelf[i+1] = true
+			clsScopes[y.S] = true
+		}
+	}
+	// a reference named _a inside such a class: esbuild replaces the class name by
+	// the generated symbol _a, which the eval taint pins
+	tempCapture := func(k int) bool {
+		if c.Refs[k-1].Name != "_a" {
+			return false
+		}
+		for _, a := range anc(c.Refs[k-1].Scope) {
+			if clsScopes[a] {
+				return true
+			}
+		}
+		return false
+	}
+	// tree shaking (format iife) removed an unused top-level function whose symbol a
+	// sloppy block function of the same name is hoisted into
+	if c.Sloppy && cf.Format == "iife" && strings.Contains(errText, "has already been declared") {
+		for i, d := range c.Decls {
+			if !c.AnnexB[i] {
+				continue
+			}
+			top := true
+			for _, a := range anc(d.Scope) {
+				if k := c.Scopes[a-1].Kind; k == "fn" || k == "arrow" || k == "cls" {
+					top = false
+				}
+			}
+			for _, e := range c.Decls {
+				if top && e.Kind == "fun" && e.Name == d.Name && c.Scopes[e.Scope-1].Kind == "file" {
+					return "tree-shaken-function-shares-symbol-with-block-function"
+				}
+			}
 		}
 	}
 	all := func(pred func(k int) bool) bool {
@@ -716,7 +751,7 @@ func causeOf(c *caseT, bad []int) string {
 	switch {
 	case len(fnInCls) > 0 && all(func(k int) bool { return fnInCls[c.Refs[k-1].Name] }):
 		return "block-function-in-class-body"
-	case len(clsSelf) > 0 && all(func(k int) bool { return clsSelf[c.Res[k-1]] }):
+	case len(clsSelf) > 0 && all(func(k int) bool { return clsSelf[c.Res[k-1]] || tempCapture(k) }):
 		return "class-expr-name-in-eval-scope"
 	case pinNR:
 		return "pinned-nested-name-not-reserved"
@@ -728,13 +763,13 @@ func causeOf(c *caseT, bad []int) string {
 	return "other"
 }
 
-func (u *unit) key(cf config, what string, bad []int) map[string]interface{} {
+func (u *unit) key(cf config, what string, bad []int, errText string) map[string]interface{} {
 	renamer := "number"
 	if cf.Minify {
 		renamer = "minify"
 	}
 	return map[string]interface{}{"case": u.hash, "mode": cf.Mode, "format": cf.Format, "minify": cf.Minify, "keepNames": cf.KeepNames,
-		"target": cf.Target, "splitting": cf.Splitting, "sloppy": u.c.Sloppy, "what": what, "renamer": renamer, "cause": causeOf(u.c, bad)}
+		"target": cf.Target, "splitting": cf.Splitting, "sloppy": u.c.Sloppy, "what": what, "renamer": renamer, "cause": causeOf(u.c, cf, bad, errText)}
 }
 
 type stats struct {
@@ -872,7 +907,7 @@ func compare(r *core.Run, u *unit, results map[string]*jobResult, st *stats) {
 		}
 		var problems []string
 		var bad []int
-		what := ""
+		what, errText := "", ""
 		for _, w := range wmodes(p) {
 			in := results[fmt.Sprintf("%d/in/%v/%s", u.idx, cf.Splitting, w)]
 			out := results[fmt.Sprintf("%d/%d/%s", u.idx, k, w)]
@@ -882,6 +917,7 @@ func compare(r *core.Run, u *unit, results map[string]*jobResult, st *stats) {
 			}
 			if out.Error != "" {
 				problems = append(problems, fmt.Sprintf("[with-%s] output throws: %s", w, out.Error))
+				errText = out.Error
 				if what == "" {
 					what = "output-error"
 				}
@@ -924,7 +960,7 @@ func compare(r *core.Run, u *unit, results map[string]*jobResult, st *stats) {
 		}
 		if len(problems) > 0 {
 			realFailed[cf.Minify] = true
-			r.Violation(u.key(cf, what, bad),
+			r.Violation(u.key(cf, what, bad, errText),
 				fmt.Sprintf("renaming changed what a name refers to (case %s, config %s): %s", u.hash, cf, strings.Join(problems, " | ")),
 				map[string]interface{}{"case": u.raw, "config": cf, "input": p.Files, "entries": p.Entries, "output": o.Files, "problems": problems,
 					"model_failNum": c.FailNum, "model_failMin": c.FailMin})
@@ -1059,7 +1095,7 @@ func Run(r *core.Run) {
 	// (1) the design: both renamer algorithms satisfy the properties on all small trees
 	designs := []string{"Rename.design-module.cfg", "Rename.design-script.cfg"}
 	if r.Thorough() {
-		designs = append(designs, "Rename.design-module2.cfg", "Rename.design-script2.cfg")
+		designs = []string{"Rename.design-module2.cfg", "Rename.design-script2.cfg"} // supersets of the quick ones
 	}
 	only := os.Getenv("VERIF_C15_ONLY") // developer knob: "trees" | "props"
 	if only != "" {
@@ -1072,6 +1108,38 @@ func Run(r *core.Run) {
 		core.Parallel(len(designs), 2, func(i int) {
 			tlcrun.MustHold(r, tlcrun.Options{Module: "Rename", Config: designs[i], Workers: 4, TimeoutSec: 1400, NoDeadlock: true})
 		})
+	}()
+	// (4) counterexamples of the as-implemented model (ReservePinnedNested = FALSE: a
+	// nested name pinned by "with" is not reserved), enumerated exhaustively for a small
+	// bound and replayed under every configuration: a counterexample on the model
+	// alone is no verdict, only the real code's behaviour is
+	cexSt := &stats{byCoinc: map[string]int{}, byConfig: map[string]int{}, rejectedWhy: map[string]int{}}
+	wg.Add(1)
+	go func() {
+		defer wg.Done()
+		if only != "" {
+			return
+		}
+		var units []*unit
+		res, err := tlcrun.Run(r, tlcrun.Options{Module: "Rename", Config: "Rename.cex-script.cfg", Workers: 2, TimeoutSec: 1400, NoDeadlock: true,
+			OnCase: func(raw []byte) {
+				cp := append([]byte{}, raw...)
+				var c caseT
+				if json.Unmarshal(cp, &c) == nil {
+					units = append(units, &unit{raw: cp, c: &c, hash: core.Hash(json.RawMessage(cp))})
+				}
+			}})
+		if err != nil {
+			r.Infra("counterexample enumeration failed: %v", err)
+			return
+		}
+		r.Logf("TLC Rename/Rename.cex-script.cfg: %d states, %d counterexamples of the as-implemented model, %.1fs", res.Distinct, len(units), res.Wall.Seconds())
+		sort.Slice(units, func(i, j int) bool { return units[i].hash < units[j].hash })
+		for i, u := range units {
+			u.idx = 1000000 + i
+			u.configs = allConfigs(u.c, render(u.c, false))
+		}
+		process(r, units, cexSt)
 	}()
 	// (3) mangled properties (scenarios enumerated by TLC, records validated by TLC)
 	wg.Add(1)
@@ -1087,8 +1155,8 @@ func Run(r *core.Run) {
 	st := &stats{byCoinc: map[string]int{}, byConfig: map[string]int{}, rejectedWhy: map[string]int{}}
 	seen := map[string]bool{}
 	total := 0
-	walks := r.Pick(400, 2500)
-	procs := r.Pick(2, 4)
+	walks := r.Pick(400, 1600)
+	procs := r.Pick(2, 3)
 	budget := time.Duration(r.Pick(70, 780)) * time.Second
 	maxRounds := r.Pick(6, 40)
 	if v := os.Getenv("VERIF_C15_WALKS"); v != "" { // developer knobs
@@ -1124,6 +1192,7 @@ func Run(r *core.Run) {
 		}
 		gens := []genSpec{{"Rename.gen-module.cfg", procs, w}, {"Rename.gen-script.cfg", procs, w}}
 		core.Parallel(len(gens), 2, func(i int) { generate(r, gens[i], r.Seed*100+int64(round), sink) })
+		r.Logf("round %d: TLC generated %d new trees in %.0fs", round+1, len(units), time.Since(t0).Seconds())
 		sort.Slice(units, func(i, j int) bool { return units[i].hash < units[j].hash }) // arrival order of the TLC processes does not matter
 		for i, u := range units {
 			u.idx = total + i
@@ -1139,7 +1208,7 @@ func Run(r *core.Run) {
 		}
 	}
 	wg.Wait()
-	r.AddTraces(int64(st.executions))
+	r.AddTraces(int64(st.executions + cexSt.executions))
 	r.Set("trees", st.cases)
 	r.Set("configurations_run", st.configsRun)
 	r.Set("configurations_rejected_by_esbuild", st.rejected)
@@ -1147,8 +1216,11 @@ func Run(r *core.Run) {
 	r.Set("node_executions", st.executions)
 	r.Set("by_coincidence", st.byCoinc)
 	r.Set("by_configuration", st.byConfig)
-	r.Set("model_counterexamples_reproduced_by_real_code", st.modelAgreed)
-	r.Set("model_counterexamples_not_reproduced", st.modelOnly)
+	r.Set("model_counterexamples_reproduced_by_real_code", st.modelAgreed+cexSt.modelAgreed)
+	r.Set("model_counterexamples_not_reproduced", st.modelOnly+cexSt.modelOnly)
+	r.Set("model_counterexample_trees_replayed", cexSt.cases)
+	st.executions += cexSt.executions
+	r.Set("node_executions", st.executions)
 	r.Set("rule", "case = one scope tree generated by TLC from Rename.tla (-simulate, seeded) rendered as a marker program and compiled by the real esbuild under several configurations (mode x format x minify-identifiers x keep-names x target x splitting); distinct by the hash of the tree; non-trivial = the tree has at least one name coincidence computed by the specification (shadowing candidate, duplicate top-level name across files, a name the number renamer has to change or that equals a generated numbered name, a declared or free name that equals a minified name, a declared name equal to a free name)")
 	if st.drift > 0 && st.drift*50 > st.cases {
 		r.Infra("specification and V8 disagree on %d of %d input programs (more than 2%%)", st.drift, st.cases)
